@@ -235,6 +235,15 @@ func checkCLIHelperGuards(p *core.Program, r *core.Report) {
 				r.Check(isC && k < 0 && a == " " && b == "", "R17.3", name, "all spaces are removed from the class list", p.InstrPos(cv), fmt.Sprintf("Replace(%q, %q, %d)", a, b, k))
 			}
 		}
+		// every class word is looked at: the accumulating loop ranges over the whole list
+		for _, l := range core.Loops(pcc) {
+			ri, ok := core.AsRange(l)
+			if !ok || ri.Kind != "slice" {
+				continue
+			}
+			_, isSlice := core.StripType(ri.X).(*ssa.Slice)
+			r.Check(!isSlice, "R17.3", name, "the class words are all looked at (the loop ranges over the whole list)", p.InstrPos(l.Header.Instrs[0]), core.Describe(ri.X))
+		}
 		// acc | table[word] only for known words
 		core.Instrs(pcc, func(in ssa.Instruction) {
 			bo, ok := in.(*ssa.BinOp)
